@@ -1,1 +1,2 @@
 import Proofs.Browser
+import Proofs.Diag
